@@ -13,6 +13,9 @@ pub enum KeyKind {
     Num,
     Str,
     Arr,
+    /// array keys whose elements are lazy computations that themselves sort (forced for the
+    /// first time in the middle of the outer sort's comparisons)
+    Nested,
 }
 
 /// key index 0..=2 -> source text; order of the texts is the order of the indexes
@@ -27,6 +30,9 @@ fn key_src(kind: KeyKind, k: u8) -> &'static str {
         (KeyKind::Arr, 0) => "[1]",
         (KeyKind::Arr, 1) => "[1, 0]",
         (KeyKind::Arr, _) => "[2]",
+        (KeyKind::Nested, 0) => "[std.length(std.set([5, 5, 5]))]",
+        (KeyKind::Nested, 1) => "[std.sort([3, 1, 2])[0], std.length(std.uniq(std.sort([7, 7]))) - 1]",
+        (KeyKind::Nested, _) => "[std.length(std.set([2, 1, 2], keyF=function(x) [x]))]",
     }
 }
 
@@ -162,7 +168,7 @@ fn short_sweep(sh: &util::Shard, maxlen: usize) -> Report {
                 return;
             }
             let keys: Vec<u8> = seq.iter().map(|&k| k as u8).collect();
-            for kind in [KeyKind::Num, KeyKind::Str, KeyKind::Arr] {
+            for kind in [KeyKind::Num, KeyKind::Str, KeyKind::Arr, KeyKind::Nested] {
                 check_array(&mut p, kind, &keys, &mut rep, "array");
             }
             rep.states += 1;
@@ -185,7 +191,7 @@ fn long_sweep(sh: &util::Shard, lengths: &[usize], pair_lengths: &[usize]) -> Re
             continue;
         }
         for (pname, base) in base_patterns(n) {
-            let kind = [KeyKind::Num, KeyKind::Str, KeyKind::Arr][(n + pname.len()) % 3];
+            let kind = [KeyKind::Num, KeyKind::Str, KeyKind::Arr, KeyKind::Nested][(n + pname.len()) % 4];
             check_array(&mut p, kind, &base, &mut rep, pname);
             rep.states += 1;
             // every single deviation
@@ -239,11 +245,13 @@ fn set_algebra(sh: &util::Shard) -> Report {
     let mut rep = Report::new();
     let arena = Arena::new();
     let mut p = Program::new(&arena);
-    let universes: Vec<(KeyKind, Vec<&str>)> = vec![
-        (KeyKind::Num, vec!["-2", "-0.5", "0", "1", "2.5", "1e9"]),
-        (KeyKind::Str, vec!["\"\"", "\"A\"", "\"a\"", "\"ab\"", "\"b\"", "\"é\""]),
+    let universes: Vec<(KeyKind, Vec<&str>, Option<Vec<&str>>)> = vec![
+        (KeyKind::Num, vec!["-2", "-0.5", "0", "1", "2.5", "1e9"], None),
+        (KeyKind::Str, vec!["\"\"", "\"A\"", "\"a\"", "\"ab\"", "\"b\"", "\"é\""], None),
+        (KeyKind::Nested, vec!["[std.length(std.set([5, 5]))]", "[std.sort([2, 1])[0], 0]", "[std.sort([2, 1])[0], 1]", "[2]", "[std.length(std.set([1, 2])), 0]", "[3]"], Some(vec!["[1]", "[1,0]", "[1,1]", "[2]", "[2,0]", "[3]"])),
     ];
-    for (kind, uni) in &universes {
+    for (kind, uni, uni_json) in &universes {
+        let uni_json = uni_json.as_ref().unwrap_or(uni);
         for a in 0..64u32 {
             if !sh.mine(a as u64) {
                 continue;
@@ -265,7 +273,7 @@ fn set_algebra(sh: &util::Shard) -> Report {
                     continue;
                 };
                 let v: J = serde_json::from_str(s).unwrap();
-                let keyidx = |x: &J| -> usize { uni.iter().position(|u| serde_json::from_str::<J>(u).map(|uv| uv == *x || (uv.is_number() && x.is_number() && uv.as_f64() == x.as_f64())).unwrap_or(false)).unwrap_or(99) };
+                let keyidx = |x: &J| -> usize { uni_json.iter().position(|u| serde_json::from_str::<J>(u).map(|uv| uv == *x || (uv.is_number() && x.is_number() && uv.as_f64() == x.as_f64())).unwrap_or(false)).unwrap_or(99) };
                 let pairs = |x: &J| -> Vec<(usize, u64)> { x.as_array().unwrap().iter().map(|q| (keyidx(&q[0]), q[1].as_u64().unwrap())).collect() };
                 let plain = |x: &J| -> Vec<usize> { x.as_array().unwrap().iter().map(keyidx).collect() };
                 let want_union: Vec<(usize, u64)> = (0..6).filter(|i| (a | bm) & (1 << i) != 0).map(|i| (i, if a & (1 << i) != 0 { 0 } else { 1 })).collect();
@@ -363,7 +371,7 @@ pub fn replay(v: &serde_json::Value) -> i32 {
     let c = &v["case"];
     if c["type"] == "sort" {
         let keys: Vec<u8> = c["keys"].as_array().unwrap().iter().map(|x| x.as_u64().unwrap() as u8).collect();
-        let kind = match c["kind"].as_str().unwrap_or("") { "Num" => KeyKind::Num, "Str" => KeyKind::Str, _ => KeyKind::Arr };
+        let kind = match c["kind"].as_str().unwrap_or("") { "Num" => KeyKind::Num, "Str" => KeyKind::Str, "Nested" => KeyKind::Nested, _ => KeyKind::Arr };
         let arena = Arena::new();
         let mut p = Program::new(&arena);
         let mut rep = Report::new();
